@@ -115,6 +115,7 @@ type CallResult struct {
 	Key    []byte
 	Post   PostState
 	WallNs int64
+	OutRef [][]byte // the slices the library actually returned (Out holds copies made at once)
 }
 
 func (r *CallResult) HasEvent(kind, name string) bool {
@@ -359,6 +360,14 @@ func cpMsgs(ms []otr3.ValidMessage) [][]byte {
 	return out
 }
 
+func refMsgs(ms []otr3.ValidMessage) [][]byte {
+	var out [][]byte
+	for _, m := range ms {
+		out = append(out, []byte(m))
+	}
+	return out
+}
+
 func errStr(e error) string {
 	if e == nil {
 		return ""
@@ -382,7 +391,7 @@ func (p *Party) Send(text []byte) *CallResult {
 			return
 		}
 		out, err := p.Conv.Send(otr3.ValidMessage(cp(text)))
-		r.Out, r.Err = cpMsgs(out), errStr(err)
+		r.Out, r.Err, r.OutRef = cpMsgs(out), errStr(err), refMsgs(out)
 	})
 }
 
@@ -396,7 +405,7 @@ func (p *Party) Receive(msg []byte) *CallResult {
 		if plain != nil {
 			r.Plain = append([]byte{}, plain...)
 		}
-		r.Out, r.Err = cpMsgs(out), errStr(err)
+		r.Out, r.Err, r.OutRef = cpMsgs(out), errStr(err), refMsgs(out)
 	})
 }
 
